@@ -1,5 +1,6 @@
 """C06 — a layer is an isolated group composited once with its opacity and blend mode."""
 import dt
+import ras
 import shared
 
 META = {
@@ -29,4 +30,4 @@ _r14_1.__name__ = 'r14_1'
 
 def run(ctx):
     import engine
-    engine.run_rules(ctx, [dt.r06_1, dt.r06_2, dt.r06_3, dt.r06_4, dt.r06_5, dt.r05_3, dt.r05_6, dt.r03_2, dt.r03_6, dt.r02_6, dt.r02_1, dt.r02_7, _r14_1, dt.r05_8])
+    engine.run_rules(ctx, [dt.r06_1, dt.r06_2, dt.r06_3, dt.r06_4, dt.r06_5, dt.r05_3, dt.r05_6, dt.r03_2, dt.r03_6, dt.r02_6, dt.r02_1, dt.r02_7, _r14_1, dt.r05_8, ras.r10_1])
